@@ -464,15 +464,53 @@ fn exec_seg(t: &mut SegExpTree<i64, i32, SegVal>, op: &SOp) -> String {
         SOp::Query { a, b, t: time, n } => {
             let mut s = String::new();
             let mut it = t.iter_by_range(SegRange { min: *a, max: *b }, *time);
-            let mut taken = 0i64;
-            while *n < 0 || taken < *n {
-                match it.next() {
-                    None => break,
-                    Some(v) => {
+            // the iterator is consumed the way callers do: an explicit next() loop, a for loop, or the
+            // adaptors that go through fold / try_fold (for_each, fold, collect, take + for_each);
+            // the style is a function of the query, the answer must not depend on it
+            let style = ((*a as i128 * 31 + *b as i128 * 17 + *time as i128) .rem_euclid(5)) as u8;
+            if *n < 0 {
+                match style {
+                    0 => {
+                        while let Some(v) = it.next() {
+                            let _ = write!(s, "{} ", v.id);
+                        }
+                    }
+                    1 => {
+                        for v in it {
+                            let _ = write!(s, "{} ", v.id);
+                        }
+                    }
+                    2 => it.for_each(|v| {
                         let _ = write!(s, "{} ", v.id);
-                        taken += 1;
+                    }),
+                    3 => {
+                        s = it.fold(String::new(), |mut acc, v| {
+                            let _ = write!(acc, "{} ", v.id);
+                            acc
+                        })
+                    }
+                    _ => {
+                        let all: Vec<_> = it.map(|v| v.id).collect();
+                        for id in all {
+                            let _ = write!(s, "{} ", id);
+                        }
                     }
                 }
+            } else if style % 2 == 0 {
+                let mut taken = 0i64;
+                while taken < *n {
+                    match it.next() {
+                        None => break,
+                        Some(v) => {
+                            let _ = write!(s, "{} ", v.id);
+                            taken += 1;
+                        }
+                    }
+                }
+            } else {
+                it.by_ref().take(*n as usize).for_each(|v| {
+                    let _ = write!(s, "{} ", v.id);
+                });
             }
             s
         }
@@ -707,6 +745,472 @@ pub fn big_export(n: usize) {
             break;
         }
         size /= 10;
+    }
+    // large capacity hints with few entries; a large tree cleared and refilled beyond its old arena
+    let row = |label: usize, t: &KeyExpTree<KKey, i32, i64>, inserted: usize| {
+        let (_, nodes, unused, _) = t.verif_snapshot();
+        let stored = nodes.len() - unused.len() - 1;
+        let v = t.verif_clone().into_ordered_vec(0);
+        println!("BIGEXPORT order={} time=0 inserted={} stored={} len={} cap={}", label, inserted, stored, v.len(), v.capacity());
+    };
+    for hint in [4096usize, 4097, 5000, 20000, 100_000] {
+        let mut t: KeyExpTree<KKey, i32, i64> = KeyExpTree::new(hint);
+        for k in 0..10 {
+            t.insert(KKey { k, exp: 1_000_000, id: k as u32 + 1 }, k as i64, 0);
+        }
+        row(hint, &t, 10);
+        // fill beyond the hint: several growth steps
+        for k in 10..(2 * hint as i32 + 50) {
+            t.insert(KKey { k, exp: 1_000_000, id: k as u32 + 1 }, k as i64, 0);
+        }
+        row(hint, &t, 2 * hint + 50);
+    }
+    for first in [4200usize, 9000] {
+        let mut t: KeyExpTree<KKey, i32, i64> = KeyExpTree::new(8);
+        for k in 0..first as i32 {
+            t.insert(KKey { k, exp: 1_000_000, id: k as u32 + 1 }, k as i64, 0);
+        }
+        t.clear();
+        for k in 0..5 {
+            t.insert(KKey { k, exp: 1_000_000, id: k as u32 + 1 }, k as i64, 0);
+        }
+        row(first, &t, 5);
+        for k in 5..(first as i32 * 2) {
+            t.insert(KKey { k, exp: 1_000_000, id: k as u32 + 1 }, k as i64, 0);
+        }
+        row(first, &t, first * 2);
+    }
+    println!("#END");
+}
+
+/// height of the tree that a snapshot's links spell (iterative; the links were produced by the code
+/// under test, so the walk is bounded by the number of slots)
+fn snap_height(snap: &Snap) -> usize {
+    let (root, nodes, _, _) = snap;
+    let mut best = 0usize;
+    let mut stack: Vec<(u32, usize)> = vec![(*root, 1)];
+    let mut visited = 0usize;
+    while let Some((i, d)) = stack.pop() {
+        if i == EMPTY_REF || (i as usize) >= nodes.len() || visited > nodes.len() {
+            continue;
+        }
+        visited += 1;
+        best = best.max(d);
+        let (_, l, r, _) = nodes[i as usize];
+        stack.push((l, d + 1));
+        stack.push((r, d + 1));
+    }
+    best
+}
+
+fn deep_row(coll: &str, opk: &str, order: &str, n: usize, fails: usize, first: &str) {
+    println!("DEEP coll={coll} opk={opk} order={order} n={n} fails={fails} first={}", first.replace(' ', "_"));
+}
+
+/// Trees far deeper than any history the model runner replays: `n` keys inserted in ascending and in
+/// descending order (the orders that make a red-black tree as high as it gets), then EVERY key looked
+/// up, every predecessor handle taken, complete successor / predecessor walks, and the height compared
+/// with 2*log2(n+1)+1.  The reference answers are immediate (the keys are 0..n), so each row is the
+/// property's own predicate evaluated on the implementation.
+pub fn deep(n: usize, which: &str) {
+    let height_bound = |n: usize| 2 * ((n + 1) as f64).log2().floor() as usize + 1;
+    for order in ["asc", "desc"] {
+        let keys: Vec<i32> = if order == "asc" { (0..n as i32).collect() } else { (0..n as i32).rev().collect() };
+        if which.contains("maptree") {
+            let mut t: MapTree<MKey, Box<i64>> = MapTree::new(8);
+            for k in &keys {
+                t.insert(MKey(*k), Box::new(*k as i64 + 1));
+            }
+            let (mut f, mut first) = (0usize, String::new());
+            for k in 0..n as i32 {
+                let got = t.get_value(MKey(k)).map(|v| **v);
+                if got != Some(k as i64 + 1) {
+                    f += 1;
+                    if first.is_empty() {
+                        first = format!("get_value({k}) = {got:?}");
+                    }
+                }
+            }
+            deep_row("maptree", "G", order, n, f, &first);
+            let (mut f, mut first) = (0usize, String::new());
+            for k in 0..n as i32 {
+                let i = t.first_index_less(MKey(k));
+                let got = if i == EMPTY_REF { None } else { Some(**t.value_by_index(i)) };
+                // first_index_less(k): handle of the greatest stored key <= k
+                let want = Some(k as i64 + 1);
+                if got != want {
+                    f += 1;
+                    if first.is_empty() {
+                        first = format!("first_index_less({k}) -> {got:?}");
+                    }
+                }
+            }
+            deep_row("maptree", "F", order, n, f, &first);
+            let hgt = snap_height(&t.verif_snapshot());
+            deep_row("maptree", "HEIGHT", order, n, (hgt > height_bound(n)) as usize, &format!("height {hgt} bound {}", height_bound(n)));
+            // remove every other key, look everything up again
+            let (mut f, mut first) = (0usize, String::new());
+            for k in (0..n as i32).step_by(2) {
+                t.delete(MKey(k));
+            }
+            for k in 0..n as i32 {
+                let got = t.get_value(MKey(k)).map(|v| **v);
+                let want = if k % 2 == 0 { None } else { Some(k as i64 + 1) };
+                if got != want {
+                    f += 1;
+                    if first.is_empty() {
+                        first = format!("after deleting the even keys: get_value({k}) = {got:?}");
+                    }
+                }
+            }
+            deep_row("maptree", "D", order, n, f, &first);
+            let r = catch_unwind(AssertUnwindSafe(|| {
+                t.clear();
+                let mut bad = !t.is_empty() as usize;
+                for k in 0..200 {
+                    t.insert(MKey(k), Box::new(k as i64 + 1));
+                }
+                for k in 0..200 {
+                    if t.get_value(MKey(k)).map(|v| **v) != Some(k as i64 + 1) {
+                        bad += 1;
+                    }
+                }
+                bad
+            }));
+            deep_row("maptree", "C", order, n, r.unwrap_or(1), "clear of the deep tree, 200 insertions, lookups");
+        }
+        if which.contains("settree") {
+            let mut t: SetTree<MKey, SVal> = SetTree::new(8);
+            for k in &keys {
+                t.insert(SVal { key: MKey(*k), payload: k.to_string() });
+            }
+            let (mut f, mut first) = (0usize, String::new());
+            for k in 0..n as i32 {
+                let ok = t.get_value(&MKey(k)).map_or(false, |v| v.key.0 == k);
+                if !ok {
+                    f += 1;
+                    if first.is_empty() {
+                        first = format!("get_value({k}) misses");
+                    }
+                }
+            }
+            deep_row("settree", "G", order, n, f, &first);
+            // successor walk from the smallest, predecessor walk from the greatest value
+            for fwd in [true, false] {
+                let start = if fwd { t.first_index_less_by(|x| if x.0 <= 0 { Ordering::Less } else { Ordering::Greater }) } else { t.first_index_less(&MKey(n as i32 + 5)) };
+                let mut i = start;
+                let mut expect: i64 = if fwd { 0 } else { n as i64 - 1 };
+                let (mut f, mut first) = (0usize, String::new());
+                let mut steps = 0usize;
+                while i != EMPTY_REF {
+                    if steps > n + 2 {
+                        f += 1;
+                        if first.is_empty() {
+                            first = "the walk does not end".into();
+                        }
+                        break;
+                    }
+                    let got = t.value_by_index(i).key.0 as i64;
+                    if got != expect {
+                        f += 1;
+                        if first.is_empty() {
+                            first = format!("step {steps}: value {got}, expected {expect}");
+                        }
+                        break;
+                    }
+                    expect += if fwd { 1 } else { -1 };
+                    i = if fwd { t.index_after(i) } else { t.index_before(i) };
+                    steps += 1;
+                }
+                if f == 0 && steps != n {
+                    f = 1;
+                    first = format!("walk of {steps} steps over {n} values");
+                }
+                deep_row("settree", if fwd { "WF" } else { "WB" }, order, n, f, &first);
+            }
+            let hgt = snap_height(&t.verif_snapshot());
+            deep_row("settree", "HEIGHT", order, n, (hgt > height_bound(n)) as usize, &format!("height {hgt} bound {}", height_bound(n)));
+            let r = catch_unwind(AssertUnwindSafe(|| {
+                t.clear();
+                let mut bad = !t.is_empty() as usize;
+                for k in 0..200 {
+                    t.insert(SVal { key: MKey(k), payload: k.to_string() });
+                }
+                for k in 0..200 {
+                    if !t.get_value(&MKey(k)).map_or(false, |v| v.key.0 == k) {
+                        bad += 1;
+                    }
+                }
+                bad
+            }));
+            deep_row("settree", "C", order, n, r.unwrap_or(1), "clear of the deep tree, 200 insertions, lookups");
+        }
+        if which.contains("keytree") {
+            let mut t: KeyExpTree<KKey, i32, i64> = KeyExpTree::new(8);
+            for (i, k) in keys.iter().enumerate() {
+                t.insert(KKey { k: *k, exp: 1_000_000, id: i as u32 + 1 }, *k as i64 + 1, 0);
+            }
+            let probe = |k: i32| KKey { k, exp: i32::MIN, id: PROBE_ID };
+            let (mut f, mut first) = (0usize, String::new());
+            for k in 0..n as i32 {
+                let got = t.get_value(0, probe(k));
+                if got != Some(k as i64 + 1) {
+                    f += 1;
+                    if first.is_empty() {
+                        first = format!("get_value({k}) = {got:?}");
+                    }
+                }
+            }
+            deep_row("keytree", "G", order, n, f, &first);
+            let (mut f, mut first) = (0usize, String::new());
+            for k in 0..n as i32 {
+                let a = t.first_less_or_equal(0, DEFAULT_VAL, probe(k));
+                let b = t.first_less(0, DEFAULT_VAL, probe(k));
+                let wb = if k == 0 { DEFAULT_VAL } else { k as i64 };
+                if a != k as i64 + 1 || b != wb {
+                    f += 1;
+                    if first.is_empty() {
+                        first = format!("first_less_or_equal({k}) = {a}, first_less({k}) = {b}");
+                    }
+                }
+            }
+            deep_row("keytree", "QE", order, n, f, &first);
+            let hgt = snap_height(&t.verif_snapshot());
+            deep_row("keytree", "HEIGHT", order, n, (hgt > height_bound(n)) as usize, &format!("height {hgt} bound {}", height_bound(n)));
+            // ordered export of the deep tree (on a copy), caught if it panics
+            let exported = catch_unwind(AssertUnwindSafe(|| t.verif_clone().into_ordered_vec(0)));
+            match exported {
+                Ok(v) => {
+                    let ok = v.len() == n && v.iter().enumerate().all(|(i, x)| *x == i as i64 + 1);
+                    deep_row("keytree", "V", order, n, (!ok) as usize, &format!("export of {} values, ascending 1..n expected", v.len()));
+                }
+                Err(_) => deep_row("keytree", "V", order, n, 1, "into_ordered_vec panicked"),
+            }
+            // clear of the deep tree, then reuse
+            let r = catch_unwind(AssertUnwindSafe(|| {
+                t.clear();
+                let mut bad = !t.is_empty() as usize;
+                for k in 0..200 {
+                    t.insert(KKey { k, exp: 1_000_000, id: 1_000_000 + k as u32 }, k as i64 + 1, 0);
+                }
+                for k in 0..200 {
+                    if t.get_value(0, probe(k)) != Some(k as i64 + 1) {
+                        bad += 1;
+                    }
+                }
+                bad
+            }));
+            deep_row("keytree", "C", order, n, r.unwrap_or(1), "clear of the deep tree, 200 insertions, lookups");
+        }
+    }
+    println!("#END");
+}
+
+/// slot partition of a tree snapshot: every slot 1..len-1 is either linked into the tree (exactly
+/// once) or on the free list (exactly once), slot 0 (the sentinel) in neither
+fn partition_defect(snap: &Snap) -> Option<String> {
+    let (root, nodes, unused, _) = snap;
+    let n = nodes.len();
+    let mut mark = vec![0u8; n];
+    let mut stack = vec![*root];
+    let mut visited = 0usize;
+    while let Some(i) = stack.pop() {
+        if i == EMPTY_REF {
+            continue;
+        }
+        if i as usize >= n {
+            return Some(format!("link {i} beyond the buffer of {n} slots"));
+        }
+        if i == 0 {
+            return Some("the sentinel slot 0 is linked into the tree".into());
+        }
+        if mark[i as usize] != 0 {
+            return Some(format!("slot {i} linked twice"));
+        }
+        mark[i as usize] = 1;
+        visited += 1;
+        if visited > n {
+            return Some("cycle".into());
+        }
+        let (_, l, r, _) = nodes[i as usize];
+        stack.push(l);
+        stack.push(r);
+    }
+    for &u in unused {
+        if u as usize >= n {
+            return Some(format!("free slot {u} beyond the buffer of {n} slots"));
+        }
+        if u == 0 {
+            return Some("the sentinel slot 0 is on the free list".into());
+        }
+        if mark[u as usize] == 1 {
+            return Some(format!("slot {u} is linked into the tree and on the free list"));
+        }
+        if mark[u as usize] == 2 {
+            return Some(format!("slot {u} is on the free list twice"));
+        }
+        mark[u as usize] = 2;
+    }
+    for i in 1..n {
+        if mark[i] == 0 {
+            return Some(format!("slot {i} is neither in the tree nor on the free list (lost)"));
+        }
+    }
+    None
+}
+
+fn cycle_row(coll: &str, opk: &str, n: usize, hint: usize, stage: &str, defect: Option<String>) {
+    println!(
+        "CYCLE coll={coll} opk={opk} n={n} hint={hint} stage={} fails={} first={}",
+        stage.replace(' ', "_"),
+        defect.is_some() as usize,
+        defect.unwrap_or_default().replace(' ', "_")
+    );
+}
+
+/// Fill / thin out / clear / refill cycles at sizes far beyond what the model runner replays, with
+/// the slot partition checked on the implementation's own arena at every stage and every stored key
+/// looked up at the end (reference answers immediate).
+pub fn cycle(n: usize, which: &str) {
+    for hint in [0usize, 300, n / 3 + 1, n + 7] {
+        if which.contains("maptree") {
+            let r = catch_unwind(AssertUnwindSafe(|| {
+                let mut t: MapTree<MKey, Box<i64>> = MapTree::new(hint);
+                                for k in 0..n as i32 {
+                    t.insert(MKey(((k as i64 * 7919) % n as i64) as i32), Box::new(0));
+                    if k as usize % (n / 16 + 1) == n / 16 {
+                        if let Some(d) = partition_defect(&t.verif_snapshot()) {
+                            cycle_row("maptree", "I", n, hint, "while filling", Some(d));
+                            break;
+                        }
+                    }
+                }
+                cycle_row("maptree", "I", n, hint, "filled", partition_defect(&t.verif_snapshot()));
+                for k in (0..n as i32).step_by(3) {
+                    t.delete(MKey(k));
+                }
+                cycle_row("maptree", "D", n, hint, "a third deleted", partition_defect(&t.verif_snapshot()));
+                for k in (0..n as i32).step_by(3) {
+                    t.insert(MKey(k), Box::new(0));
+                }
+                cycle_row("maptree", "I", n, hint, "refilled after deletions", partition_defect(&t.verif_snapshot()));
+                t.clear();
+                cycle_row("maptree", "C", n, hint, "cleared", partition_defect(&t.verif_snapshot()).or(if t.is_empty() { None } else { Some("not empty after clear".into()) }));
+                for k in 0..(n as i32 + n as i32 / 4) {
+                    t.insert(MKey(k), Box::new(k as i64 + 1));
+                }
+                cycle_row("maptree", "I", n, hint, "refilled beyond the old arena", partition_defect(&t.verif_snapshot()));
+                for k in (0..n as i32).step_by(2) {
+                    t.delete(MKey(k));
+                }
+                cycle_row("maptree", "D", n, hint, "half deleted after the clear", partition_defect(&t.verif_snapshot()));
+                let mut miss = None;
+                for k in 0..(n as i32 + n as i32 / 4) {
+                    let want = if k < n as i32 && k % 2 == 0 { None } else { Some(k as i64 + 1) };
+                    if t.get_value(MKey(k)).map(|v| **v) != want && miss.is_none() {
+                        miss = Some(format!("get_value({k}) wrong after the cycle"));
+                    }
+                }
+                cycle_row("maptree", "G", n, hint, "lookups after the cycle", miss);
+            }));
+            if r.is_err() {
+                cycle_row("maptree", "PANIC", n, hint, "panic", Some("panicked".into()));
+            }
+        }
+        if which.contains("settree") {
+            let r = catch_unwind(AssertUnwindSafe(|| {
+                let mut t: SetTree<MKey, SVal> = SetTree::new(hint);
+                                let sv = |k: i32| SVal { key: MKey(k), payload: String::new() };
+                for k in 0..n as i32 {
+                    t.insert(sv(((k as i64 * 7919) % n as i64) as i32));
+                    if k as usize % (n / 16 + 1) == n / 16 {
+                        if let Some(d) = partition_defect(&t.verif_snapshot()) {
+                            cycle_row("settree", "I", n, hint, "while filling", Some(d));
+                            break;
+                        }
+                    }
+                }
+                cycle_row("settree", "I", n, hint, "filled", partition_defect(&t.verif_snapshot()));
+                for k in (0..n as i32).step_by(3) {
+                    t.delete(&MKey(k));
+                }
+                cycle_row("settree", "D", n, hint, "a third deleted", partition_defect(&t.verif_snapshot()));
+                for k in (0..n as i32).step_by(3) {
+                    t.insert(sv(k));
+                }
+                cycle_row("settree", "I", n, hint, "refilled after deletions", partition_defect(&t.verif_snapshot()));
+                t.clear();
+                cycle_row("settree", "C", n, hint, "cleared", partition_defect(&t.verif_snapshot()).or(if t.is_empty() { None } else { Some("not empty after clear".into()) }));
+                for k in 0..(n as i32 + n as i32 / 4) {
+                    t.insert(sv(k));
+                }
+                cycle_row("settree", "I", n, hint, "refilled beyond the old arena", partition_defect(&t.verif_snapshot()));
+                for k in (0..n as i32).step_by(2) {
+                    t.delete(&MKey(k));
+                }
+                cycle_row("settree", "D", n, hint, "half deleted after the clear", partition_defect(&t.verif_snapshot()));
+                let mut miss = None;
+                for k in 0..(n as i32 + n as i32 / 4) {
+                    let want = !(k < n as i32 && k % 2 == 0);
+                    if t.get_value(&MKey(k)).is_some() != want && miss.is_none() {
+                        miss = Some(format!("get_value({k}) wrong after the cycle"));
+                    }
+                }
+                cycle_row("settree", "G", n, hint, "lookups after the cycle", miss);
+            }));
+            if r.is_err() {
+                cycle_row("settree", "PANIC", n, hint, "panic", Some("panicked".into()));
+            }
+        }
+        if which.contains("keytree") {
+            let r = catch_unwind(AssertUnwindSafe(|| {
+                let mut t: KeyExpTree<KKey, i32, i64> = KeyExpTree::new(hint);
+                                let probe = |k: i32| KKey { k, exp: i32::MIN, id: PROBE_ID };
+                // two thirds expire at 10
+                for k in 0..n as i32 {
+                    let kk = ((k as i64 * 7919) % n as i64) as i32;
+                    let e = if kk % 3 == 0 { 1_000_000 } else { 10 };
+                    t.insert(KKey { k: kk, exp: e, id: k as u32 + 1 }, kk as i64 + 1, 0);
+                    if k as usize % (n / 16 + 1) == n / 16 {
+                        if let Some(d) = partition_defect(&t.verif_snapshot()) {
+                            cycle_row("keytree", "I", n, hint, "while filling", Some(d));
+                            break;
+                        }
+                    }
+                }
+                cycle_row("keytree", "I", n, hint, "filled", partition_defect(&t.verif_snapshot()));
+                // queries at time 20 purge what they meet
+                for k in (0..n as i32).step_by(5) {
+                    let _ = t.first_less_or_equal(20, DEFAULT_VAL, probe(k));
+                }
+                cycle_row("keytree", "QE", n, hint, "queried after mass expiry", partition_defect(&t.verif_snapshot()));
+                let mut miss = None;
+                for k in 0..n as i32 {
+                    let want = if k % 3 == 0 { Some(k as i64 + 1) } else { None };
+                    if t.get_value(20, probe(k)) != want && miss.is_none() {
+                        miss = Some(format!("get_value({k}) at time 20 wrong"));
+                    }
+                }
+                cycle_row("keytree", "G", n, hint, "lookups after mass expiry", miss);
+                cycle_row("keytree", "G", n, hint, "arena after the lookups", partition_defect(&t.verif_snapshot()));
+                t.clear();
+                cycle_row("keytree", "C", n, hint, "cleared", partition_defect(&t.verif_snapshot()).or(if t.is_empty() { None } else { Some("not empty after clear".into()) }));
+                for k in 0..(n as i32 + n as i32 / 4) {
+                    t.insert(KKey { k, exp: 1_000_000, id: 5_000_000 + k as u32 }, k as i64 + 1, 0);
+                }
+                cycle_row("keytree", "I", n, hint, "refilled beyond the old arena", partition_defect(&t.verif_snapshot()));
+                let mut miss = None;
+                for k in 0..(n as i32 + n as i32 / 4) {
+                    if t.get_value(0, probe(k)) != Some(k as i64 + 1) && miss.is_none() {
+                        miss = Some(format!("get_value({k}) wrong after the cycle"));
+                    }
+                }
+                cycle_row("keytree", "G", n, hint, "lookups after the cycle", miss);
+            }));
+            if r.is_err() {
+                cycle_row("keytree", "PANIC", n, hint, "panic", Some("panicked".into()));
+            }
+        }
     }
     println!("#END");
 }
